@@ -24,13 +24,9 @@ def is_jr_bypass(e):
     return c[0] == "rel" and c[1] in ("Le", "Eq") and Mentions(Call("joint_rand_len"))(c[2]) and Lit(0)(c[3])
 
 
-def run(ctx):
-    # decide + query core (shared with C05)
-    flp_guards.decide_guards(ctx, rule="R-C02.G.decide")
-    flp_guards.query_guards(ctx, rule="R-C02.G.query")
-
+def combine_rules(ctx, rule):
+    """share-length, share-count and decide-every-proof rules of Prio3::verifier_shares_to_message (shared with C16)"""
     # --- verifier_shares_to_message
-    rule = "R-C02.G.combine"
     try:
         f = ctx.fn(rule, name="verifier_shares_to_message", trait="Aggregator", self_adt=PRIO3)
         g = ctx.guards(f)
@@ -120,6 +116,15 @@ def run(ctx):
                                  key="%s:%s:decide-error-propagated" % (rule, f.id))
     except Skip:
         pass
+
+
+
+def run(ctx):
+    # decide + query core (shared with C05)
+    flp_guards.decide_guards(ctx, rule="R-C02.G.decide")
+    flp_guards.query_guards(ctx, rule="R-C02.G.query")
+
+    combine_rules(ctx, "R-C02.G.combine")
 
     # --- verify_next: joint randomness seed comparison
     rule = "R-C02.G.seedcheck"
